@@ -1212,7 +1212,10 @@ class Interp:
             m = base.cls.lookup(attr)
             if m is not None:
                 if m.is_property:
-                    return self.call_function(m, [base], {})
+                    v = self.call_function(m, [base], {})
+                    if getattr(m, "is_cached_property", False):
+                        base.attrs[attr] = v  # functools.cached_property: computed once per object
+                    return v
                 if m.is_classmethod:
                     return FuncVal(m, self_obj=ClassVal(base.cls))
                 if m.is_static:
